@@ -24,7 +24,8 @@ RULE = ("Exhaustive: every tuple (function in {@,+,*,T,H,kron,kronsum,inv,solve,
         "named in a signature of the live plum registry, annotation in {none,SelfAdjoint,PSD,Stiefel,Unitary}, algorithm "
         "class admitted by the function, omitted vs explicit optional arguments) is executed on a tiny PD instance; a "
         "violation is an AmbiguousLookupError/NotFoundLookupError raised anywhere in the call; any other exception is "
-        "outside the property and only tallied. Generated: the same calls on Hypothesis-drawn nested trees. Non-trivial: "
+        "outside the property and only tallied; 68 further tuples execute the LARGE branch of every Auto rule on matrix-free "
+        "1001 x 1001 operators. Generated: the same calls on Hypothesis-drawn nested trees. Non-trivial: "
         "a tuple for which more than one registered signature of the called function matches the arguments.")
 ASSUMPTIONS = [
     "only lookup errors are judged; errors raised by the selected rule (CG/Cholesky refusing non-PSD, shape asserts, numerical failures) are tallied by bucket, never alarms",
@@ -344,6 +345,82 @@ def lattice(tier):
     return tuples
 
 
+# ---- the large branch of every Auto rule (> 1e6 entries): matrix-free 1001 x 1001 operators, cheap products
+LARGE_CALLS = ["inv", "solve", "pinv", "slogdet", "logdet", "diag", "trace", "exp", "log", "sqrt", "isqrt", "pow", "apply_unary", "eig", "eigmax",
+               "eigmin", "svd"]
+LARGE_OMITTED = ["inv", "pinv", "eig", "exp", "svd"]
+
+
+def large_operator(psd, ann):
+    import cola
+    n, r = 1001, 4
+    rng = np.random.default_rng(5)
+    U = rng.standard_normal((n, r)) / np.sqrt(n)
+    V = U if psd else rng.standard_normal((n, r)) / np.sqrt(n)
+    A = cola.ops.LinearOperator(np.float64, (n, n), matmat=lambda X: 2.0 * X + U @ (V.T @ X))
+    return annotate(A, ann), n
+
+
+def run_large(t):
+    import cola
+    from cola.linalg.svd.svd import svd
+    L = cola.linalg
+    fname, psd, ann, variant = t
+    A, n = large_operator(psd, ann)
+    kw = dict(tol=2e-3, max_iters=12)
+    alg = [] if variant == "omitted" else [L.Auto(**kw)]
+    v = np.ones(n)
+    try:
+        if fname == "inv":
+            L.inv(A, *alg) @ v
+        elif fname == "solve":
+            L.solve(A, v, *alg)
+        elif fname == "pinv":
+            L.pinv(A, *alg) @ v
+        elif fname in ("slogdet", "logdet"):
+            getattr(L, fname)(A, **({} if not alg else {"log_alg": alg[0], "trace_alg": L.Auto(**kw)}))
+        elif fname == "diag":
+            L.diag(A, 0, *alg)
+        elif fname == "trace":
+            L.trace(A, *alg)
+        elif fname in ("exp", "log", "sqrt", "isqrt"):
+            getattr(L, fname)(A, *alg) @ v
+        elif fname == "pow":
+            L.pow(A, 0.5, *alg) @ v
+        elif fname == "apply_unary":
+            L.apply_unary(np.tanh, A, *alg) @ v
+        elif fname == "eig":
+            L.eig(A, 2, "LM", *alg)
+        elif fname in ("eigmax", "eigmin"):
+            getattr(L, fname)(A, *alg)
+        elif fname == "svd":
+            svd(A, 2, "LM", *alg)
+    except Exception as e:
+        le = is_lookup_error(e)
+        if le:
+            return ("lookup", f"{le}: {str(e)[:300]}")
+        tn, site = oracle.exc_bucket(e)
+        return ("other", f"{tn}@{site}")
+    return ("ok", "")
+
+
+def large_lattice():
+    out = []
+    for fname in LARGE_CALLS:
+        for psd in (True, False):
+            for ann in ([None, "PSD", "SelfAdjoint"] if psd else [None]):
+                out.append((fname, psd, ann, "Auto(kw)"))
+                if fname in LARGE_OMITTED:
+                    out.append((fname, psd, ann, "omitted"))
+    return out
+
+
+def _work_large(t):
+    from cvh import runner
+    runner.setup_cola()
+    return (t, ) + run_large(t)
+
+
 def _work(chunk):
     from cvh import runner
     runner.setup_cola()
@@ -383,6 +460,24 @@ def deterministic(tier, seed, open_findings):
                 violations.append({"case": {"mode": "tuple", "tuple": list(t)}, "failures": [f]})
         if len(samples) < 6 and status == "ok" and nt and (len(samples) == 0 or t[1] != samples[-1][1]):
             samples.append(list(t))
+    # the large branches
+    ltuples = large_lattice()
+    with ctx.Pool(min(nproc, len(ltuples))) as pool:
+        lres = pool.map(_work_large, ltuples, chunksize=1)
+    for t, status, detail in lres:
+        tally["large:" + status] += 1
+        if status == "other":
+            other["large:" + detail] += 1
+        if status == "lookup":
+            fname, psd, ann, variant = t
+            f = {"sub": "lookup", "site": f"{fname}(large {'PSD-capable' if psd else 'general'} operator;{variant})", "man": detail.split(":")[0],
+                 "detail": f"ann={ann} n=1001 {detail}"}
+            kid = runner.known_id(open_findings, f)
+            if kid:
+                excluded[kid] += 1
+            else:
+                violations.append({"case": {"mode": "large", "tuple": list(t)}, "failures": [f]})
+    nontriv += len(lres)
     uncovered = sorted(registry_classes() - set(factories().keys()))
     # de-duplicate violations by site (one replay per distinct site/manifestation, keep the first)
     seen, uniq = set(), []
@@ -391,7 +486,7 @@ def deterministic(tier, seed, open_findings):
         if key not in seen:
             seen.add(key)
             uniq.append(v)
-    return {"evaluations": len(results), "distinct_nontrivial": nontriv, "samples": [{"tuple": s} for s in samples],
+    return {"evaluations": len(results) + len(lres), "distinct_nontrivial": nontriv, "large_branch_tuples": len(lres), "samples": [{"tuple": s} for s in samples],
             "violations": uniq[:40], "lattice_tally": dict(tally), "lattice_other_exceptions": dict(other.most_common(40)),
             "lattice_violation_sites": len(uniq), "exhaustive": True, "uncovered_kind": uncovered,
             "lattice_excluded_known": dict(excluded)}
@@ -425,6 +520,12 @@ def strategy(tier):
 
 def check(case, out):
     import cola
+    if case.get("mode") == "large":
+        status, detail = run_large(tuple(case["tuple"]))
+        if status == "lookup":
+            fname, psd, ann, variant = case["tuple"]
+            out.fail("lookup", f"{fname}(large {'PSD-capable' if psd else 'general'} operator;{variant})", detail.split(":")[0], detail)
+        return
     if case.get("mode") == "tuple":
         status, detail, nt = run_tuple(tuple(case["tuple"]))
         if status == "lookup":
